@@ -1695,6 +1695,8 @@ def insert_foreign(ctx, tag, schema):
     if not spots:
         return None
     names = gen.ANNOTATIONS + gen.FOREIGN[tag] + gen.LATER + ["x-unknown", "nullable", "discriminator", "ünknown", ""]
+    # names the search was pointed at (a keyword found in a regenerated table that no vocabulary has): tried often
+    names = names + [h for h in gen.HINTS["strs"] if h not in gen.VOCAB[tag]] * 12
     consulted = {"properties", "patternProperties", "items", "then", "else", "exclusiveMinimum", "exclusiveMaximum",
                  "required", "$ref", "id", "$id", "$schema"}
     n = 0
